@@ -223,6 +223,9 @@ def streams(ctx):
                             why = f"{where} {got!r} does not cover the spec {spec!r}"
                         elif token == spec and got != spec:
                             why = f"{where} {got!r} is not exactly the spec {spec!r}"
+                        elif on_wire and spec and token != spec and token.endswith(spec) and d[2] is None and \
+                                not any(s == t0 + len(tb) - len(spec.encode("utf-8")) and e == t0 + len(tb) for t0 in inside):
+                            why = f"{where} {s}..{e} = {got!r} is not the spec {spec!r} at the end of the value token {token!r} (at {occ})"
                         elif on_wire and eco == "gha" and spec and got != spec:
                             why = f"{where} {got!r} is not exactly the ref {spec!r}"
                 if why:
